@@ -114,6 +114,34 @@ Theorem C15_like_in_parse_all : forall (T : Type) (SC : Scalar T) (e : env (T:=T
 Proof. exact @like_in_parse_all. Qed.
 Print Assumptions C15_like_in_parse_all.
 
+(* deck level (the model-side twin of the sweep oracle): in a table with distinct
+   cell numbers whose LIKE chains all end, replacing the card "k LIKE n BUT o" by
+   the explicit card "text that n stands for, then o" leaves the result of
+   parse_all unchanged — every cell, every error, the cells that are LIKE k
+   included — and the hypotheses survive, so all LIKE cards can be expanded one
+   after the other *)
+Theorem C15_replace_like_card : forall (T : Type) (SC : Scalar T) (e : env (T:=T))
+    (pre post : table) (k : Z) (mat0 g0 o : string) (n : Z) (d : nat) (x : card),
+  let tbl := (pre ++ (k, (mat0, g0, o)) :: post)%list in
+  let tbl' := (pre ++ (k, apply_but x o) :: post)%list in
+  NoDup (map fst tbl) -> search_like (lower g0) = Some n -> denotes tbl n d x ->
+  (forall j c, In (j, c) tbl -> exists dj xj, denotes tbl j dj xj) ->
+  parse_all SC e tbl' = parse_all SC e tbl /\
+  NoDup (map fst tbl') /\
+  (forall j c, In (j, c) tbl' -> exists dj xj, denotes tbl' j dj xj).
+Proof. exact @replace_like_card_full. Qed.
+Print Assumptions C15_replace_like_card.
+
+(* its hypotheses on the three-card table of C15_example, card 2 replaced *)
+Example C15_example_replace :
+  let tbl := ([(1%Z, (" 1 -1.0", " -1 ", "imp:n=0"))] ++
+              (2%Z, ("", " like 1 but", " MAT=2 imp:n=1")) ::
+              [(3%Z, ("", " LIKE 2 BUT", " rho = -2.5 *TRCL=( 0 )"))])%list in
+  tbl = xtbl /\ NoDup (map fst tbl) /\ search_like (lower " like 1 but") = Some 1%Z /\
+  denotes tbl 1 0 (" 1 -1.0", " -1 ", "imp:n=0") /\
+  (forall j c, In (j, c) tbl -> exists dj xj, denotes tbl j dj xj).
+Proof. exact example_replace_hyps. Qed.
+
 (* LIKE n BUT o = the cell with the material string and the geometry of the card
    n stands for, and n's keyword dictionary with every parameter listed in o
    overridden — provided o does not lower an importance written on the
@@ -151,19 +179,31 @@ Theorem C15_like_imp_refuted :
 Proof. exact like_imp_refuted. Qed.
 Print Assumptions C15_like_imp_refuted.
 
-(* a second shape on which the copy differs from the explicit card: BUT MAT=0
-   makes the copy void but the inherited density stays on it (the explicit void
-   card has none); C15_like_equals_expanded holds there too — it speaks of the
-   dictionary, and no explicit card carries "material 0 with a density" *)
-Theorem C15_like_mat_void_refuted :
-  exists (e : env (T:=R)) (tbl : table) (c_like c_expl : cell (T:=R)),
-    lookup 1%Z tbl = Some (" 1 -1.0", " -1 ", "imp:n=1") /\
-    parse_one_cell RS 2 e tbl 1 None ("", " like 1 but", " mat=0") = Ok c_like /\
-    parse_one_cell RS 2 e tbl 1 None (" 0", " -1 ", "imp:n=1") = Ok c_expl /\
-    c_mat c_like = "0" /\ c_mat c_expl = "0" /\
-    c_rho c_like = Some "-1.0" /\ c_rho c_expl = None.
-Proof. exact like_mat_void_refuted. Qed.
-Print Assumptions C15_like_mat_void_refuted.
+(* BUT MAT=0 (after fix ac9102a): with the hypotheses above and MAT=m in the BUT
+   list, int(m) = 0, the copy is the cell of the explicit void card: material
+   token m, no density, the other keywords (MAT and RHO exist in BUT lists only) *)
+Theorem C15_like_mat_void : forall (e : env (T:=R)) (tbl : table) (fuel rank : nat)
+    (lat : option (list (Z * Z))) (mat0 g0 o : string) (n : Z) (d : nat)
+    (mx gx ox : string) (kb ko : kws (T:=R)) (m : string),
+  search_like (lower g0) = Some n -> denotes tbl n d (mx, gx, ox) -> (d < fuel)%nat ->
+  sq_state false ox = false -> leads_colon o = false -> kw_head (tokenize o) ->
+  parse_kws RS e (tokenize ox) = Ok kb -> parse_kws RS e (tokenize o) = Ok ko ->
+  (forall v w, k_imp ko = Some v -> k_imp kb = Some w -> (w <= v)%R) ->
+  k_mat ko = Some m -> pyint m = Some 0%Z ->
+  parse_one_cell RS fuel e tbl rank lat (mat0, g0, o) =
+  (parse_material e mx >>= fun _ =>
+   match getast e gx with
+   | None => Err EParse
+   | Some ast => finish_cell e rank lat m None ast (drop_mat_rho (override kb ko))
+   end).
+Proof. exact like_mat_void_R. Qed.
+Print Assumptions C15_like_mat_void.
+
+(* ... e.g. "2 like 1 but mat=0" on "1 1 -1.0 -1 imp:n=1" is the card "0 -1 imp:n=1" *)
+Example C15_example_void :
+  parse_one_cell RS 2 (wenv 0%R 1%R) vtbl 1 None ("", " like 1 but", " mat=0") =
+  parse_one_cell RS 2 (wenv 0%R 1%R) vtbl 1 None (" 0", " -1 ", "imp:n=1").
+Proof. exact (witness_void_like RS 0%R 1%R). Qed.
 
 (* non-vacuity: LIKE 2 BUT RHO *TRCL where 2 is itself LIKE 1 BUT MAT IMP *)
 Example C15_example :
